@@ -49,8 +49,69 @@ from prompt_toolkit.patch_stdout import StdoutProxy
 
 ID = "C20"
 DRIVER = "drv_c20"
-PROPS = ["Ptk.Props.C20", "Ptk.Props.C20Chain"]
+PROPS = ["Ptk.Props.C20", "Ptk.Props.C20Chain", "Ptk.Props.C20ChainLemmas"]
 SERIAL = False
+LEVEL_TEXT = ("Lean 4 theorems over two executable transition-system models with atomic steps at lock / event-loop "
+              "granularity, for ANY number of threads and ANY interleaving (induction over arbitrary step lists): "
+              "(a) StdoutProxy (write/flush under the RLock, line buffer, flush queue, the flush thread's sections, "
+              "hand-off to the application loop, application start/stop, loop close/replace): stream_invariant, "
+              "exactly_once_after_flush, write_contiguous, segments_tile, per_thread_order, conservation (all schedules), "
+              "inside_bracket / text_never_on_prompt / section_shape, flusher_alive, flush_then_settle_delivers (arrival); "
+              "(b) in_terminal with the _running_in_terminal_f chain and sections open across awaits: chain_mutex, chain_fifo, "
+              "sections_do_not_overlap, prompt_untouched_in_section, section_starts_after_erase. Three schedule windows in "
+              "which the property is FALSE of the current code are refuted on concrete schedules in Lean and replayed on the "
+              "real code (known findings K1-K3). Tied to /repo on every run by a differential correspondence (real "
+              "StdoutProxy, real threads and a real Application in an asyncio loop thread, driven step by step under "
+              "enforced schedules; free-running soak) and the property oracle. PARTIAL: lock/queue linearizability and "
+              "the event-loop hand-off are assumptions")
+LEVEL_NOTE = ("trusted: Lean kernel, axioms propext/Classical.choice/Quot.sound only; hand-written models (validated by "
+              "the correspondence, not proved equal to the Python); threading.RLock / queue.Queue linearizability, asyncio "
+              "runs callbacks FIFO and atomically between awaits; steps are atomic at the granularity of the model "
+              "(real preemption inside a step is not modelled); the schedule gates of the harness")
+TECHNIQUE = "Lean 4 proof over hand-written executable model + differential correspondence with the real code"
+RULE = ("proxy: every op sequence up to the tier's length over {write a / b\\n / '' / c\\nd from 2 threads, flush, flush-thread "
+        "step} without application, and over {write, flush-thread step, loop step, start, stop, close loop, new loop} after "
+        "5 prefixes that put the flush thread / the loop in each of their hand-off states, each followed by flush + settle; "
+        "then seeded random schedules (1-4 threads, up to 60 ops, data with several newlines, ESC, wide chars, raw on/off, "
+        "default and create_app_session sessions, close()), half of them adversarial (arbitrary interleaving of stop / "
+        "loop close / start) and half calm; chain: every op sequence up to the tier's length over {enter sync, enter open, "
+        "leave 0..2, stop, start} + random; soak: free-running writer threads on an unmodified StdoutProxy (no "
+        "application / application throughout / application stopped and restarted on a new loop meanwhile). "
+        "non-trivial = a proxy case with a non-empty write and at least one flush-thread step, a chain case with a "
+        "section, any soak case")
+EXHAUSTIVE = True
+EXHAUSTIVE_SCOPE = {
+    "quick": "proxy without app: all sequences len<=3 over 6 ops; with app: 5 prefixes x all sequences len<=2 over 7 ops; "
+             "chain: all sequences len<=3 over 7 ops",
+    "thorough": "proxy without app: all sequences len<=5 over 6 ops; with app: 5 prefixes x all sequences len<=4 over 7 ops; "
+                "chain: all sequences len<=5 over 7 ops",
+}
+TRUSTED = ["harness/c20.py compares, after every scheduled step, the terminal events (erase / render / render-done / "
+           "enable_autowrap+write+flush) received by a recording Vt100_Output and Renderer, _buffer, the queue items, the "
+           "flush thread's position and locals, accepted-but-not-run callbacks, app/loop state; at the end the output text "
+           "and (without application) the exact StringIO content",
+           "Ptk/Model/C20.lean, C20Chain.lean are hand translations of patch_stdout.py / run_in_terminal.py / the parts of "
+           "application.py they use (correspondence-checked)",
+           "the schedule gates (StdoutProxy subclass pausing in _flush_queue.get / _get_app_loop / _write_and_flush; loop "
+           "stand-in that forwards call_soon_threadsafe to the real loop at the scheduled step with the context captured at "
+           "call time) pause threads only at synchronisation points; they do not change what the code computes"]
+ASSUMPTIONS = ["threading.RLock gives mutual exclusion for write()/flush(); queue.Queue is a linearizable FIFO; the "
+               "get()+get_nowait() drain of the flush thread is atomic w.r.t. put()",
+               "an asyncio loop runs accepted callbacks in FIFO order, each atomically up to its first real suspension; a "
+               "closed loop raises RuntimeError from call_soon_threadsafe and drops what it had accepted",
+               "Application.run_async start (first render) and stop (render done, _is_running False, app removed from the "
+               "session) are atomic for the other threads",
+               "the Output object is used by one thread at a time (Vt100_Output.write/flush are not thread-safe themselves)",
+               "lone surrogates and non-str data are outside the alphabet"]
+PARTIAL_SCOPE = ["real preemption inside a step (e.g. between `self._buffer = [after]` and `put`) is excluded by the lock "
+                 "assumption, not exhibited", "sleep_between_writes only delays; it is 0 in gated runs",
+                 "K1: loop closed while it holds accepted callbacks -> text lost (theorems assume `calm`)",
+                 "K2: direct write from the flush thread while accepted callbacks wait -> order swapped (`calm`)",
+                 "K3: application starts between `_get_app_loop() is None` and the direct write -> text on the drawn "
+                 "prompt (`startCalm`)",
+                 "several event loops alive at the same time (applications in different threads) are not modelled: one "
+                 "current loop", "CPR waiting in in_terminal, render_cli_done=True, in_executor=True bodies: only through "
+                 "the open-section chain model", "Windows outputs, isatty/fileno/encoding passthrough not modelled"]
 
 TIMEOUT = float(os.environ.get("VERIF_C20_TIMEOUT", "10"))
 
@@ -246,7 +307,8 @@ class GatedProxy(StdoutProxy):
     def _write_and_flush(self, loop, text):
         self.rig.gate("emit", loop, text)
         self.rig.emit_text = text
-        self.rig.emit_thread_direct = loop is None
+        if loop is None and self.rig.pending:
+            self.rig.notes.append("direct-with-pending")
         return super()._write_and_flush(loop, text)
 
 
@@ -267,6 +329,7 @@ class Rig:
         self.emit_text = None
         self.pending = []
         self.lost = []
+        self.notes = []
         self.loops = []          # LoopThread objects, newest last
         self.shims = {}
         self.gen = 0
@@ -429,6 +492,9 @@ class Rig:
         lt = self.cur_loop()
         if lt is None or self.app_on():
             return
+        if self.gated and self.fl_at is not None and self.fl_at[0] == "emit" and self.fl_at[1] is None:
+            # the flush thread found no application and is about to write directly
+            self.notes.append("start-in-direct-window")
         self.ensure_app()
 
         async def go():
@@ -471,15 +537,16 @@ class Rig:
         for (l2, cb, args, ctx, text) in self.pending:
             l2.loop.call_soon_threadsafe(cb, *args, context=ctx)
             self.lost.append(text)
+            self.notes.append("closed-with-pending")
         self.pending = []
         lt.close()
 
     def settle(self, limit=100000):
         for _ in range(limit):
-            if self.fl_enabled():
-                self.fl_step()
-            elif self.pending:
+            if self.pending:
                 self.run_pending()
+            elif self.fl_enabled():
+                self.fl_step()
             else:
                 return
 
@@ -556,11 +623,14 @@ def canon_events(evs):
     i = 0
     while i < len(evs):
         e = evs[i]
-        if e[0] == "A" and i + 2 < len(evs) + 0 and evs[i + 1][0] == "W" and evs[i + 2][0] == "F":
+        if e[0] == "A" and i + 2 < len(evs) and evs[i + 1][0] == "W" and evs[i + 2][0] == "F":
             out.append("O%d:%s" % (evs[i + 1][1], enc_str(evs[i + 1][2])))
             i += 3
         elif e[0] in ("E", "D", "X"):
             out.append(e[0])
+            i += 1
+        elif e[0] in ("B", "b"):
+            out.append("%s%d" % (e[0], e[1]))
             i += 1
         else:
             out.append("?" + e[0] + (":" + enc_str(e[2]) if e[0] == "W" else ""))
@@ -574,6 +644,10 @@ def op_line(op):
         return "w %d %s" % (op[1], enc_str(op[2]))
     if k == "f":
         return "f %d" % op[1]
+    if k == "center":
+        return "center %d" % op[1]
+    if k == "cstep":
+        return "cstep %d" % op[1]
     return k
 
 
@@ -581,77 +655,697 @@ def model_lines(case):
     kind = case.get("kind", "proxy")
     if kind == "proxy":
         return ["init %d" % case["raw"]] + [op_line(op) for op in case["ops"]] + ["end"]
+    if kind == "chain":
+        return ["cinit"] + [op_line(op) for op in case["ops"]]
+    if kind == "soak":
+        return ["soak %s" % enc_list(ws, enc_str) for ws in case["writes"]]
     raise ValueError(kind)
 
 
-def run_proxy_case(case):
-    """-> (lines, record) ; record is what the oracle needs"""
+# ------------------------------------------------------------------ proxy cases
+def apply_proxy_op(rig, op):
+    k = op[0]
+    if k == "w":
+        rig.do_write(op[1], op[2])
+    elif k == "f":
+        rig.do_flush(op[1])
+    elif k == "close":
+        rig.do_close()
+    elif k == "fl":
+        rig.fl_step()
+    elif k == "run":
+        rig.run_pending()
+    elif k == "start":
+        rig.start_app()
+    elif k == "stop":
+        rig.stop_app()
+    elif k == "newloop":
+        rig.new_loop()
+    elif k == "closeloop":
+        rig.close_loop()
+    elif k == "settle":
+        rig.settle()
+    else:
+        raise ValueError(op)
+
+
+def filter_lifecycle(op, evs):
+    # the application's own start-up / shut-down writes (cursor shape, bracketed paste ...) are not
+    # emissions of the proxy: keep only the renderer operations of a start / stop step
+    if op[0] in ("start", "stop", "cstart", "cstop"):
+        return [e for e in evs if e[0] in ("E", "D", "X", "B", "b")]
+    return evs
+
+
+def run_proxy_case(case, ops=None, finish=False):
+    """Run the schedule on the real code.  -> (protocol lines, record for the oracle)."""
+    ops = case["ops"] if ops is None else ops
     rig = Rig(raw=bool(case["raw"]), session=case.get("session", "default"))
     lines = []
-    rec = {"events": None, "errors": []}
+    rec = {"errors": [], "timeline": [], "notes": rig.notes}
     all_toks = []
     try:
         lines.append(" | " + rig.state_line())
-        for op in case["ops"]:
-            k = op[0]
-            lifecycle = k in ("start", "stop")
-            if k == "w":
-                rig.do_write(op[1], op[2])
-            elif k == "f":
-                rig.do_flush(op[1])
-            elif k == "close":
-                rig.do_close()
-            elif k == "fl":
-                rig.fl_step()
-            elif k == "run":
-                rig.run_pending()
-            elif k == "start":
-                rig.start_app()
-            elif k == "stop":
-                rig.stop_app()
-            elif k == "newloop":
-                rig.new_loop()
-            elif k == "closeloop":
-                rig.close_loop()
-            elif k == "settle":
-                rig.settle()
-            else:
-                raise ValueError(op)
-            evs = rig.take_events()
-            if lifecycle:
-                # the application's own start-up / shut-down writes (cursor shape, bracketed paste ...)
-                evs = [e for e in evs if e[0] in ("E", "D", "X")]
+        for op in ops:
+            apply_proxy_op(rig, op)
+            evs = filter_lifecycle(op, rig.take_events())
+            rec["timeline"] += evs
             toks = canon_events(evs)
             all_toks += toks
             lines.append(" ".join(toks) + " | " + rig.state_line())
         text = "".join(core.dec_str(t[3:]) for t in all_toks if t[0] == "O")
         started = any(t == "D" for t in all_toks)
-        quiescent = ("".join(rig.proxy._buffer) == "" and not any(isinstance(i, str) and i for i in rig.proxy._flush_queue.queue)
+        quiescent = ("".join(rig.proxy._buffer) == ""
+                     and not any(isinstance(i, str) and i for i in rig.proxy._flush_queue.queue)
                      and rig.fl_pc() in ("idle", "exited") and not rig.pending)
-        lines.append("out=%s term=%s quiescent=%d" % (enc_str(text), "-" if started else enc_str(rig.out.sio.getvalue()),
-                                                     1 if quiescent else 0))
+        lines.append("out=%s term=%s quiescent=%d" % (
+            enc_str(text), "-" if started else enc_str(rig.out.sio.getvalue()), 1 if quiescent else 0))
+        if finish:
+            # the oracle's epilogue: flush, then let the loop and the flush thread finish their work
+            closed = any(op[0] == "close" for op in ops)
+            if not closed:
+                rig.do_flush(0)
+            rig.settle()
+            rec["timeline"] += rig.take_events()
+            rec["fl_pc"] = rig.fl_pc()
+            rec["queue_left"] = [i for i in rig.proxy._flush_queue.queue if isinstance(i, str) and i]
+            rec["buffer_left"] = "".join(rig.proxy._buffer)
+            rec["closed"] = closed
+            rec["fl_exc"] = None if rig.fl_exc is None else repr(rig.fl_exc)
+    except RigTimeout as e:
+        rec["errors"].append("timeout: " + str(e))
+        lines.append("timeout:" + str(e))
     finally:
-        rec["errors"] = rig.teardown()
+        rec["errors"] += rig.teardown()
     if rec["errors"]:
-        lines.append("teardown-errors:" + ";".join(rec["errors"])[:300])
+        lines.append("errors:" + ";".join(rec["errors"])[:300])
     return lines, rec
+
+
+_cache = {}
+
+
+def case_key(case):
+    return json.dumps(case, sort_keys=True)
 
 
 def impl_lines(case):
     kind = case.get("kind", "proxy")
     if kind == "proxy":
-        return run_proxy_case(case)[0]
+        has_close = any(op[0] == "close" for op in case["ops"])
+        lines, rec = run_proxy_case(case, finish=not has_close)
+        _cache.clear()
+        if not has_close:
+            _cache[case_key(case)] = rec
+        return lines
+    if kind == "chain":
+        lines, rec = run_chain_case(case)
+        _cache.clear()
+        _cache[case_key(case)] = rec
+        return lines
+    if kind == "soak":
+        rec = run_soak_case(case)
+        _cache.clear()
+        _cache[case_key(case)] = rec
+        return rec["lines"]
     raise ValueError(kind)
 
 
+# ------------------------------------------------------------------ oracle (property over the real objects)
+SIG_DIED = "StdoutProxy._write_thread | flush thread died"
+SIG_K1 = "StdoutProxy._write_and_flush | callback accepted by the loop, loop closed before it ran: text lost"
+SIG_K2 = "StdoutProxy._write_and_flush | direct write while accepted callbacks wait in the loop: order swapped"
+SIG_K3 = "StdoutProxy._write_and_flush | application started after the look-up found none: direct write on the drawn prompt"
+SIG_STREAM = "StdoutProxy | output differs from the writes in lock order"
+SIG_BRACKET = "in_terminal | text written while the prompt is drawn (no erase/redraw around it)"
+SIG_STUCK = "StdoutProxy | flushed text never reaches the output"
+SIG_OVERLAP = "in_terminal | sections overlap or the prompt is drawn inside a section"
+SIG_RIG = "harness | rig error"
+
+
+def emissions(timeline):
+    """[(index in timeline, raw, text, thread)] of the A W F triples"""
+    out = []
+    for i, e in enumerate(timeline):
+        if e[0] == "A" and i + 2 < len(timeline) and timeline[i + 1][0] == "W" and timeline[i + 2][0] == "F":
+            out.append((i, timeline[i + 1][1], timeline[i + 1][2], timeline[i + 1][3]))
+    return out
+
+
+def check_bracket(timeline, notes=()):
+    """'While an application is running the text is emitted only between an erase of the prompt and
+    its redraw, never inside the prompt's own drawing.'  -> list of (signature, msg)"""
+    v = []
+    visible = False       # a prompt is on the screen
+    running = False       # between the first render of an application and its render in done state
+    n = len(timeline)
+    i = 0
+    while i < n:
+        e = timeline[i]
+        if e[0] == "D":
+            visible, running = True, True
+        elif e[0] == "E":
+            visible = False
+        elif e[0] == "X":
+            visible, running = False, False
+        elif e[0] == "A" and i + 2 < n and timeline[i + 1][0] == "W" and timeline[i + 2][0] == "F":
+            thread = timeline[i + 1][3]
+            text = timeline[i + 1][2]
+            bad = None
+            if visible:
+                bad = "text %r written while the prompt is on the screen" % text
+            elif running:
+                prev = timeline[i - 1][0] if i > 0 else None
+                nxt = timeline[i + 3][0] if i + 3 < n else None
+                if prev != "E" or nxt != "D":
+                    bad = "text %r of a running application not between erase and redraw (%s .. %s)" % (text, prev, nxt)
+            if bad:
+                if thread == "patch-stdout-flush-thread" and "start-in-direct-window" in notes:
+                    v.append((SIG_K3, bad + " (direct write from the flush thread)"))
+                else:
+                    v.append((SIG_BRACKET, bad + " (thread %s)" % thread))
+            i += 2
+        i += 1
+    return v
+
+
+def classify_stream(out_text, expected, rec):
+    if rec.get("fl_exc"):
+        return SIG_DIED, "flush thread died with %s" % rec["fl_exc"]
+    notes = rec.get("notes", [])
+    if "closed-with-pending" in notes and sorted(out_text) != sorted(expected):
+        return SIG_K1, "a loop was closed while it held accepted callbacks"
+    if "direct-with-pending" in notes and sorted(out_text) == sorted(expected):
+        return SIG_K2, "the flush thread wrote directly while accepted callbacks were waiting in the loop"
+    if sorted(out_text) == sorted(expected):
+        return SIG_STREAM + " | reordered", "same characters, different order"
+    if len(out_text) < len(expected):
+        return SIG_STREAM + " | lost", "characters missing"
+    return SIG_STREAM + " | duplicated or invented", "extra characters"
+
+
+def oracle_proxy(case):
+    v = []
+    ops = case["ops"]
+    key = case_key(case)
+    has_close = any(op[0] == "close" for op in ops)
+    if key in _cache:
+        rec = _cache.pop(key)
+    else:
+        if has_close:
+            # "after a flush": make sure the flush precedes the close
+            i = next(j for j, op in enumerate(ops) if op[0] == "close")
+            ops = ops[:i] + [["f", 0]] + ops[i:]
+        _, rec = run_proxy_case(case, ops=ops, finish=True)
+    if rec["errors"]:
+        v.append({"signature": SIG_RIG if not rec.get("fl_exc") else SIG_DIED, "msg": "; ".join(rec["errors"])[:400]})
+    tl = rec["timeline"]
+    out_text = "".join(e[2] for e in emissions(tl))
+    writes = [op[2] for op in ops if op[0] == "w"]
+    expected = "".join(writes)
+    if has_close:
+        i = next(j for j, op in enumerate(ops) if op[0] == "close")
+        required = "".join(op[2] for op in ops[:i] if op[0] == "w")
+        ok = out_text.startswith(required) and expected.startswith(out_text)
+    else:
+        required = expected
+        ok = out_text == expected
+    if not ok:
+        sig, why = classify_stream(out_text, required if has_close else expected, rec)
+        v.append({"signature": sig, "msg": "%s: output %r, writes in lock order %r" % (why, out_text, expected)})
+    elif rec.get("fl_exc"):
+        v.append({"signature": SIG_DIED, "msg": rec["fl_exc"]})
+    if not has_close and ok and (rec.get("queue_left") or rec.get("buffer_left") or rec.get("fl_pc") != "idle"):
+        v.append({"signature": SIG_STUCK, "msg": "after flush: queue %r buffer %r flush thread %s" % (
+            rec.get("queue_left"), rec.get("buffer_left"), rec.get("fl_pc"))})
+    for sig, msg in check_bracket(tl, rec.get("notes", ())):
+        v.append({"signature": sig, "msg": msg})
+    seen, out = set(), []
+    for x in v:
+        if x["signature"] not in seen:
+            seen.add(x["signature"])
+            out.append(x)
+    return out
+
+
+# ------------------------------------------------------------------ chain cases (in_terminal)
+class ChainRig(Rig):
+    def __init__(self, session="default"):
+        self.secs = {}       # id -> dict(sync, bypass, gate, task)
+        self.next_id = 0
+        super().__init__(session=session, gated=False)
+        self.new_loop()
+        self.ensure_app()
+
+    def enter(self, sync):
+        k = self.next_id
+        self.next_id += 1
+        lt = self.cur_loop()
+        info = {"sync": sync, "bypass": not (self.session.app is not None and self.app._is_running)}
+        self.secs[k] = info
+
+        async def sec():
+            async with in_terminal():
+                self.events.append(("B", k))
+                if not sync:
+                    await info["gate"].wait()
+                self.events.append(("b", k))
+            info["finished"] = True
+
+        async def spawn():
+            info["gate"] = asyncio.Event()
+            info["task"] = asyncio.ensure_future(sec())
+            await lt._barrier(6 + 3 * len(self.secs))
+
+        lt.call(spawn())
+
+    def leave(self, k):
+        info = self.secs.get(k)
+        if info is None or info["sync"] or info.get("released"):
+            return
+        if not any(e[0] == "B" and e[1] == k for e in self.events):
+            return      # still waiting in the chain: its body has not started
+        info["released"] = True
+        lt = self.cur_loop()
+
+        async def go():
+            info["gate"].set()
+            await lt._barrier(6 + 3 * len(self.secs))
+
+        lt.call(go())
+
+    def cstop(self):
+        if not (self.session.app is not None and self.app._is_running):
+            return
+        lt = self.cur_loop()
+
+        async def go():
+            self.app.exit()
+            await lt._barrier(10)
+
+        lt.call(go())
+
+    def cstart(self):
+        if self.app_task is not None and not self.app_task.done():
+            return
+        if self.session.app is not None:
+            return
+        self.start_app()
+
+    def chain_state(self):
+        st = []
+        for k in sorted(self.secs):
+            info = self.secs[k]
+            if info["bypass"]:
+                continue
+            began = any(e[0] == "B" and e[1] == k for e in self.events)
+            ended = any(e[0] == "b" and e[1] == k for e in self.events)
+            st.append("d" if ended else "b" if began else "w")
+        app = 1 if (self.app is not None and self.app._is_running) else 0
+        rit = 1 if (self.app is not None and self.app._running_in_terminal) else 0
+        return "app=%d rit=%d chain=%s" % (app, rit, "".join(st))
+
+    def teardown(self):
+        try:
+            lt = self.cur_loop()
+            if lt is not None:
+                async def rel():
+                    for info in self.secs.values():
+                        if "gate" in info:
+                            info["gate"].set()
+                    await lt._barrier(10 + 3 * len(self.secs))
+                lt.call(rel())
+        except BaseException:
+            pass
+        return super().teardown()
+
+
+def run_chain_case(case):
+    rig = ChainRig(session=case.get("session", "default"))
+    lines = []
+    rec = {"errors": [], "timeline": []}
+    try:
+        rig.take_events()
+        lines.append(" | " + rig.chain_state())
+        for op in case["ops"]:
+            k = op[0]
+            if k == "center":
+                rig.enter(bool(op[1]))
+            elif k == "cstep":
+                rig.leave(op[1])
+            elif k == "cstop":
+                rig.cstop()
+            elif k == "cstart":
+                rig.cstart()
+            else:
+                raise ValueError(op)
+            evs = filter_lifecycle(op, rig.take_events())
+            evs = [e for e in evs if e[0] in ("E", "D", "X", "B", "b")]
+            rec["timeline"] += evs
+            lines.append(" ".join(canon_events(evs)) + " | " + rig.chain_state())
+        rec["bypass"] = {k: info["bypass"] for k, info in rig.secs.items()}
+    except RigTimeout as e:
+        rec["errors"].append("timeout: " + str(e))
+        lines.append("timeout:" + str(e))
+    finally:
+        rec["errors"] += rig.teardown()
+    if rec["errors"]:
+        lines.append("errors:" + ";".join(rec["errors"])[:300])
+    return lines, rec
+
+
+def oracle_chain(case):
+    """sections of a running application do not overlap; the prompt is never drawn inside a section;
+    every section of a running application starts right after an erase"""
+    key = case_key(case)
+    rec = _cache.pop(key) if key in _cache else run_chain_case(case)[1]
+    v = []
+    if rec["errors"]:
+        v.append({"signature": SIG_RIG, "msg": "; ".join(rec["errors"])[:400]})
+    bypass = rec.get("bypass", {})
+    open_sec = None
+    tl = rec["timeline"]
+    for i, e in enumerate(tl):
+        if e[0] == "B" and not bypass.get(e[1], False):
+            if open_sec is not None:
+                v.append({"signature": SIG_OVERLAP, "msg": "section %d starts inside section %d: %r" % (e[1], open_sec, tl)})
+            if i == 0 or tl[i - 1][0] != "E":
+                v.append({"signature": SIG_OVERLAP, "msg": "section %d does not start right after an erase: %r" % (e[1], tl)})
+            open_sec = e[1]
+        elif e[0] == "b" and e[1] == open_sec:
+            open_sec = None
+        elif e[0] in ("D", "E", "X") and open_sec is not None:
+            v.append({"signature": SIG_OVERLAP, "msg": "%s inside section %d: %r" % (e[0], open_sec, tl)})
+    seen, out = set(), []
+    for x in v:
+        if x["signature"] not in seen:
+            seen.add(x["signature"])
+            out.append(x)
+    return out
+
+
+# ------------------------------------------------------------------ soak (free running threads)
+TOKEN_RE = re.compile(r"\[(\d+):(\d+)([^\[\]]*)\]")
+
+
+def run_soak_case(case):
+    """mode: 'noapp' | 'app' (application runs the whole time) | 'startstop' (application stops and a
+    new one starts on a new loop while the writers run)"""
+    mode = case["mode"]
+    writes = case["writes"]
+    rig = Rig(raw=bool(case.get("raw", 0)), session=case.get("session", "default"), gated=False,
+              sleep=case.get("sleep", 0.0))
+    rec = {"errors": [], "mode": mode}
+    try:
+        if mode != "noapp":
+            rig.new_loop()
+            rig.start_app()
+        for t, ws in enumerate(writes):
+            q, done, _ = rig.writer(t)
+            done.clear()
+        for t, ws in enumerate(writes):
+            rig.writers[t][0].put(("ww", ws))
+        if mode == "startstop":
+            for _ in range(case.get("cycles", 2)):
+                time.sleep(0.002)
+                rig.stop_app()
+                rig.close_loop()
+                rig.new_loop()
+                rig.start_app()
+        for t in range(len(writes)):
+            if not rig.writers[t][1].wait(TIMEOUT):
+                raise RigTimeout("writer")
+        rig.proxy.flush()
+        # wait until the flush thread has handed everything over and the loop has run it
+        total = sum(len(w) for ws in writes for w in ws)
+        t0 = time.time()
+        while time.time() - t0 < TIMEOUT:
+            got = sum(len(e[2]) for e in emissions(list(rig.events)))
+            if got >= total and rig.proxy._flush_queue.qsize() == 0:
+                break
+            time.sleep(0.002)
+        if mode != "noapp":
+            rig.stop_app()
+        rec["timeline"] = list(rig.events)
+    except RigTimeout as e:
+        rec["errors"].append("timeout: " + str(e))
+        rec["timeline"] = list(rig.events)
+    finally:
+        rec["errors"] += rig.teardown()
+    out_text = "".join(e[2] for e in emissions(rec["timeline"]))
+    rec["out"] = out_text
+    # per-thread projection: tokens [t:k...] in order of appearance
+    per = {t: [] for t in range(len(writes))}
+    pos = 0
+    tiled = True
+    for m in TOKEN_RE.finditer(out_text):
+        if m.start() != pos:
+            tiled = False
+        pos = m.end()
+        per.setdefault(int(m.group(1)), []).append(m.group(0))
+    if pos != len(out_text):
+        tiled = False
+    rec["tiled"] = tiled
+    rec["lines"] = [enc_str("".join(per.get(t, []))) for t in range(len(writes))]
+    if rec["errors"]:
+        rec["lines"].append("errors:" + ";".join(rec["errors"])[:300])
+    return rec
+
+
+def oracle_soak(case):
+    key = case_key(case)
+    rec = _cache.pop(key) if key in _cache else run_soak_case(case)
+    v = []
+    if rec["errors"]:
+        v.append({"signature": SIG_RIG, "msg": "; ".join(rec["errors"])[:400]})
+    out = rec["out"]
+    writes = case["writes"]
+    toks = [m.group(0) for m in TOKEN_RE.finditer(out)]
+    want = [w for ws in writes for w in ws if w]
+    across = rec["mode"] == "startstop"
+    if not rec["tiled"]:
+        v.append({"signature": SIG_STREAM + " | split", "msg": "output is not a sequence of whole write calls: %r" % out[:300]})
+    if sorted(toks) != sorted(want):
+        missing = [w for w in want if w not in toks]
+        dup = [w for w in set(toks) if toks.count(w) > 1]
+        if across and missing and not dup:
+            # free running across application stop / loop close: the only known way to lose text is the
+            # window of SIG_K1 (the harness cannot observe the loop's ready queue here)
+            sig = SIG_K1
+        else:
+            sig = SIG_STREAM + (" | lost" if missing else " | duplicated or invented")
+        v.append({"signature": sig, "msg": "missing %r duplicated %r" % (missing[:5], dup[:5])})
+    else:
+        for t, ws in enumerate(writes):
+            mine = [x for x in toks if x.startswith("[%d:" % t)]
+            if mine != [w for w in ws if w]:
+                v.append({"signature": SIG_K2 if across else SIG_STREAM + " | reordered",
+                          "msg": "thread %d: %r" % (t, mine[:6])})
+                break
+    if rec["mode"] in ("noapp", "app"):
+        for sig, msg in check_bracket([e for e in rec["timeline"]]):
+            v.append({"signature": sig, "msg": msg})
+    seen, res = set(), []
+    for x in v:
+        if x["signature"] not in seen:
+            seen.add(x["signature"])
+            res.append(x)
+    return res
+
+
 def oracle(case):
-    return []
+    kind = case.get("kind", "proxy")
+    if kind == "proxy":
+        return oracle_proxy(case)
+    if kind == "chain":
+        return oracle_chain(case)
+    if kind == "soak":
+        return oracle_soak(case)
+    raise ValueError(kind)
+
+
+# ------------------------------------------------------------------ generators
+DATA_SMALL = ["a", "b\n", "", "c\nd"]
+DATA_RAND = ["a", "b\n", "", "c\nd", "\n", "\n\n", "xy", "e\x1bf\n", "世\n", "é", " ", "long line without newline ",
+             "1\n2\n3", "\x1b[31m", "tail\r\n"]
+
+
+def epilogue():
+    return [["f", 0], ["settle"]]
+
+
+def exhaustive_noapp(maxlen):
+    alpha = [["w", 0, "a"], ["w", 0, "b\n"], ["w", 1, ""], ["w", 1, "c\nd"], ["f", 1], ["fl"]]
+    for n in range(0, maxlen + 1):
+        for seq in itertools.product(alpha, repeat=n):
+            yield {"kind": "proxy", "raw": 0, "session": "default", "ops": [list(o) for o in seq] + epilogue()}
+
+
+APP_PREFIXES = [
+    [["newloop"], ["start"]],
+    [["newloop"], ["start"], ["w", 0, "x\n"], ["fl"], ["fl"]],                 # flush thread holds the loop
+    [["newloop"], ["start"], ["w", 0, "x\n"], ["fl"], ["fl"], ["fl"]],         # callback accepted
+    [["w", 0, "x\n"], ["fl"], ["fl"], ["newloop"]],                            # flush thread decided: direct
+    [["newloop"], ["start"], ["stop"], ["w", 0, "x\n"], ["fl"]],
+]
+
+
+def exhaustive_app(maxlen):
+    alpha = [["w", 1, "y\n"], ["fl"], ["run"], ["start"], ["stop"], ["closeloop"], ["newloop"]]
+    for pre in APP_PREFIXES:
+        for n in range(0, maxlen + 1):
+            for seq in itertools.product(alpha, repeat=n):
+                yield {"kind": "proxy", "raw": 0, "session": "default",
+                       "ops": [list(o) for o in pre] + [list(o) for o in seq] + epilogue()}
+
+
+def random_proxy(rng, nops):
+    nthreads = rng.choice([1, 2, 2, 3, 4])
+    ops = []
+    closed = False
+    weights = rng.choice([
+        {"w": 6, "f": 1, "fl": 6, "run": 2, "start": 1, "stop": 1, "newloop": 1, "closeloop": 1, "settle": 1, "close": 0},
+        {"w": 4, "f": 1, "fl": 5, "run": 3, "start": 2, "stop": 2, "newloop": 2, "closeloop": 2, "settle": 0, "close": 0},
+        {"w": 8, "f": 2, "fl": 8, "run": 0, "start": 0, "stop": 0, "newloop": 0, "closeloop": 0, "settle": 0, "close": 0},
+        {"w": 5, "f": 1, "fl": 6, "run": 3, "start": 1, "stop": 1, "newloop": 1, "closeloop": 0, "settle": 1, "close": 1},
+    ])
+    kinds = [k for k, w in weights.items() for _ in range(w)]
+    if rng.random() < 0.6:
+        ops += [["newloop"], ["start"]]
+    for _ in range(nops):
+        k = rng.choice(kinds)
+        if k == "w":
+            ops.append(["w", rng.randrange(nthreads), rng.choice(DATA_RAND)])
+        elif k == "f":
+            ops.append(["f", rng.randrange(nthreads)])
+        elif k == "close":
+            if closed:
+                continue
+            closed = True
+            ops.append(["close"])
+        else:
+            ops.append([k])
+    if not closed:
+        ops += epilogue()
+    return {"kind": "proxy", "raw": rng.choice([0, 0, 1]), "session": rng.choice(["default", "default", "custom"]),
+            "ops": ops}
+
+
+def random_calm_proxy(rng, nops):
+    """a realistic run: the loop works off what it accepted before anything else happens to it"""
+    nthreads = rng.choice([2, 3, 4])
+    ops = [["newloop"], ["start"]] if rng.random() < 0.8 else []
+    for _ in range(nops):
+        r = rng.random()
+        if r < 0.45:
+            ops.append(["w", rng.randrange(nthreads), rng.choice(DATA_RAND)])
+        elif r < 0.5:
+            ops.append(["f", rng.randrange(nthreads)])
+        elif r < 0.85:
+            ops.append(["fl"])
+        elif r < 0.93:
+            ops.append(["run"])
+        else:
+            ops.append(["settle"])
+            ops.append(rng.choice([["stop"], ["start"], ["newloop"], ["closeloop"]]))
+    ops += epilogue()
+    return {"kind": "proxy", "raw": rng.choice([0, 1]), "session": rng.choice(["default", "custom"]), "ops": ops}
+
+
+def exhaustive_chain(maxlen):
+    alpha = [["center", 1], ["center", 0], ["cstep", 0], ["cstep", 1], ["cstep", 2], ["cstop"], ["cstart"]]
+    for n in range(0, maxlen + 1):
+        for seq in itertools.product(alpha, repeat=n):
+            yield {"kind": "chain", "session": "default", "ops": [["cstart"]] + [list(o) for o in seq]}
+
+
+def random_chain(rng, nops):
+    ops = [["cstart"]]
+    n = 0
+    for _ in range(nops):
+        r = rng.random()
+        if r < 0.4:
+            ops.append(["center", rng.choice([0, 0, 1])])
+            n += 1
+        elif r < 0.8:
+            ops.append(["cstep", rng.randrange(max(1, n))])
+        elif r < 0.9:
+            ops.append(["cstop"])
+        else:
+            ops.append(["cstart"])
+    return {"kind": "chain", "session": rng.choice(["default", "custom"]), "ops": ops}
+
+
+def soak_case(rng, mode):
+    nthreads = rng.choice([2, 3, 4, 6])
+    writes = []
+    for t in range(nthreads):
+        ws = []
+        for k in range(rng.choice([5, 20, 60])):
+            body = rng.choice(["", "x", "\n", "line\n", "a\nb", "partial", "\n\n", "z" * 30 + "\n"])
+            ws.append("[%d:%d%s]" % (t, k, body))
+            if rng.random() < 0.15:
+                ws.append("")
+        writes.append(ws)
+    return {"kind": "soak", "mode": mode, "writes": writes, "raw": rng.choice([0, 1]),
+            "session": rng.choice(["default", "custom"]), "sleep": rng.choice([0.0, 0.0, 0.001]),
+            "cycles": rng.choice([1, 2, 3])}
 
 
 def cases(tier, rng):
-    yield {"kind": "proxy", "raw": 0, "session": "default",
-           "ops": [["w", 0, "a\nb"], ["fl"], ["fl"], ["fl"], ["newloop"], ["start"], ["w", 1, "c\n"], ["fl"], ["fl"],
-                   ["fl"], ["run"], ["f", 0], ["settle"], ["stop"], ["closeloop"]]}
+    quick = tier == "quick"
+    yield from exhaustive_noapp(3 if quick else 5)
+    yield from exhaustive_app(2 if quick else 4)
+    yield from exhaustive_chain(3 if quick else 5)
+    for _ in range(150 if quick else 4000):
+        yield random_proxy(rng, rng.choice([5, 10, 20, 40]))
+    for _ in range(100 if quick else 3000):
+        yield random_calm_proxy(rng, rng.choice([10, 30, 60]))
+    for _ in range(60 if quick else 2000):
+        yield random_chain(rng, rng.choice([4, 8, 16]))
+    if not quick:
+        for i in range(240):
+            yield soak_case(rng, ["noapp", "app", "startstop"][i % 3])
+    else:
+        for i in range(6):
+            yield soak_case(rng, ["noapp", "app", "startstop"][i % 3])
+
+
+def nontrivial(case):
+    k = case.get("kind", "proxy")
+    if k == "proxy":
+        return any(op[0] == "w" and op[2] for op in case["ops"]) and any(op[0] == "fl" or op[0] == "settle" for op in case["ops"])
+    if k == "chain":
+        return any(op[0] == "center" for op in case["ops"])
+    return True
+
+
+def distribution(cases_):
+    d = {"kind": {}, "ops": {}, "threads": {}, "session": {}, "raw": {}, "len": {}}
+    for c in cases_:
+        k = c.get("kind", "proxy")
+        d["kind"][k] = d["kind"].get(k, 0) + 1
+        d["session"][c.get("session", "default")] = d["session"].get(c.get("session", "default"), 0) + 1
+        if k == "soak":
+            n = len(c["writes"])
+            d["threads"][str(n)] = d["threads"].get(str(n), 0) + 1
+            continue
+        ts = {op[1] for op in c["ops"] if op[0] in ("w", "f")}
+        d["threads"][str(len(ts))] = d["threads"].get(str(len(ts)), 0) + 1
+        n = len(c["ops"])
+        key = str(n) if n < 10 else "10-19" if n < 20 else "20-39" if n < 40 else "40+"
+        d["len"][key] = d["len"].get(key, 0) + 1
+        if k == "proxy":
+            d["raw"][str(c["raw"])] = d["raw"].get(str(c["raw"]), 0) + 1
+        for op in c["ops"]:
+            d["ops"][op[0]] = d["ops"].get(op[0], 0) + 1
+    return d
+
+
+def sample_view(case):
+    if case.get("kind") == "soak":
+        return dict(case, writes=[ws[:3] + ["... %d writes" % len(ws)] for ws in case["writes"]])
+    return case
 
 
 if __name__ == "__main__":
